@@ -15,6 +15,7 @@ def nameWire : Name → String
   | .var c => s!"V:{c}"
   | .cov a b => s!"K:{a}:{b}"
   | .demean c => s!"D:{c}"
+  | .gmean c => s!"G:{c}"
 
 def parseName (t : String) : Option Name :=
   match t.splitOn ":" with
@@ -24,6 +25,7 @@ def parseName (t : String) : Option Name :=
   | ["V", c] => some (.var c)
   | ["K", a, b] => some (.cov a b)
   | ["D", c] => some (.demean c)
+  | ["G", c] => some (.gmean c)
   | _ => none
 
 partial def exprWire : Expr → String
@@ -48,6 +50,7 @@ def sortDefs (defs : List (Name × Expr)) : List (Name × Expr) :=
 
 def stageWire : Stage → String
   | .withColumns defs => s!"W {defs.length} " ++ " ".intercalate ((sortDefs defs).map (fun d => nameWire d.1 ++ " " ++ exprWire d.2))
+  | .joinGroup defs => s!"J {defs.length} " ++ " ".intercalate ((sortDefs defs).map (fun d => nameWire d.1 ++ " " ++ exprWire d.2))
   | .aggregate g defs => s!"A {if g then 1 else 0} {defs.length} "
       ++ " ".intercalate ((sortDefs defs).map (fun d => nameWire d.1 ++ " " ++ exprWire d.2))
 
@@ -87,6 +90,7 @@ def pStage : P Stage := do
   let t ← tok
   match t with
   | "W" => do let k ← nat; pure (.withColumns (← many k pDef))
+  | "J" => do let k ← nat; pure (.joinGroup (← many k pDef))
   | "A" => do let g ← bool; let k ← nat; pure (.aggregate g (← many k pDef))
   | _ => throw s!"bad stage {t}"
 
